@@ -49,7 +49,7 @@ def parseFloatSpecial (s : Str) : Option FloatV :=
 def spanDigits (s : Str) : Str × Str := (s.takeWhile isDig, s.dropWhile isDig)
 
 /-- XML Schema Part 2 §3.2.4.1 / §3.2.5.1: mantissa (a decimal number) optionally followed by `E`/`e` and an integer
-    exponent; or `INF`, `-INF`, `NaN`. -/
+    exponent; or `INF`, `-INF`, `NaN` (`+INF` is allowed by XSD 1.1 only and tolerated here). -/
 def validDecimalBody (s : Str) : Bool :=
   let a := spanDigits s
   match a.2 with
@@ -67,7 +67,7 @@ def stripSign (s : Str) : Str :=
 def validDecimal (s : Str) : Bool := validDecimalBody (stripSign s)
 
 def validFloat (s : Str) : Bool :=
-  if s = ['I', 'N', 'F'] || s = ['-', 'I', 'N', 'F'] || s = ['N', 'a', 'N'] then true
+  if s = ['I', 'N', 'F'] || s = ['-', 'I', 'N', 'F'] || s = ['+', 'I', 'N', 'F'] || s = ['N', 'a', 'N'] then true
   else
     let body := stripSign s
     let mant := body.takeWhile (fun c => c ≠ 'E' && c ≠ 'e')
